@@ -202,12 +202,12 @@ def _replay(chunk, arg):
     for raw in chunk:
         case = tlc.decode(raw) if isinstance(raw, str) else raw
         if case["m"] == "tree":
-            viol.extend(check_tree_case(W, case))
+            viol.extend(core.safe(check_tree_case, case, W, case))
             n += len(case["nodes"])
             if len(case["nodes"]) >= 3:
                 nontriv.add(hash(raw))
         else:
-            viol.extend(check_xpath_case(W, case))
+            viol.extend(core.safe(check_xpath_case, case, W, case))
             n += len(case["paths"])
             for pc in case["paths"]:
                 if pc["found"]:
